@@ -32,11 +32,15 @@ print(json.dumps(out))
 '''
 
 def run(scheme):
-    env = dict(os.environ, VERIF_PO_CANON=scheme)
+    # scheme: extra environment for the worker, e.g. "VERIF_PO_CANON=old" or "VERIF_NO_COMBINATORS=1" or ""
+    env = dict(os.environ)
+    for kv in scheme.split():
+        k, v = kv.split('=', 1)
+        env[k] = v
     r = subprocess.run([sys.executable, '-c', WORKER % (VERIF, list(MODS))], env=env, stdout=subprocess.PIPE, text=True, check=True)
     return json.loads(r.stdout.strip().splitlines()[-1])
 
-old, new = run('old'), run('new')
+old, new = run(sys.argv[1] if len(sys.argv) > 1 else 'VERIF_PO_CANON=old'), run(sys.argv[2] if len(sys.argv) > 2 else '')
 for m, var in MODS.items():
     a, b = old[m], new[m]
     assert len(a) == len(b), (m, len(a), len(b))
